@@ -139,7 +139,12 @@ def build_network(net, deferred_index=False):
         lanelets.append(G.lanelet(i, x0=2.0 * i, predecessor=list(net["pred"][k]), successor=list(net["succ"][k]),
                                   traffic_signs=set(net["sg"][k]), traffic_lights=set(net["lt"][k]),
                                   lanelet_type={LaneletType[TYPES[k]]}, **kw))
-    signs = [G.sign(s, (float(s), 3.0)) for s in net["S"]]
+    # a sign's `first_occurrence` names the lanelet where it first appears - in general a strict subset of the lanelets
+    # (and stop lines) that refer to it; the clean-up after a removal must not take it for the set of referrers
+    def first(sid):
+        ref = [i for i in net["L"] if sid in net["sg"][i - 1] or sid in net["ssg"][i - 1]]
+        return {min(ref)} if ref and sid % 2 == 0 or len(ref) > 1 else set()
+    signs = [G.sign(s, (float(s), 3.0), first=first(s)) for s in net["S"]]
     lights = [G.light(t, (float(t), 4.0)) for t in net["T"]]
     inters = []
     if net["X"]:
